@@ -22,4 +22,12 @@ def run(rep, db, tier, seed):
     rep.assumptions += ['induction over steps is a paper argument', 'reachable-state invariant assumed for the pre-state (see C03)']
     rep.bounds = dict(steps=1, committee='N = 2 (quick), 2..3 (thorough), symbolic weights', caches='<= 1 entry')
     RC.run_all(rep, db, tier, ('C05',))
+    # two-step sequences: the pre-state of the step under test is produced by the real code (restart + one accepted step), so state
+    # that one handler leaves behind for another, and fields this harness does not know, are covered (props/replica_seq.py)
+    try:
+        from props import replica_seq
+        replica_seq.run(rep, db, tier, ('C05', 'C03', 'C02'))
+        rep.bounds['sequences'] = 'restart -> accepted step A -> step B; quick: 4 (A, B) pairs from a plain start state, second input well signed; thorough: 14 pairs, all start-state shapes, arbitrary second input'
+    except Exception as u:
+        rep.add(F.Obligation('two-step handler sequences', 'inconclusive', f'{type(u).__name__}: {u}'[:600]))
     rep.extra['explanation'] = 'one-step certificate-monotonicity, justification and self-justification obligations on the real handler MIR'
